@@ -548,6 +548,8 @@ func TestC05(t *testing.T) {
 			build: func(h, r [][]byte) [][]byte { return cat(h[0], junk, h[1]) }}
 		judge(sc, run(t, sc))
 	}
+	// ---- key state of the peer's session disturbed during the handshake.
+	disturbedSetup(t, rep, mine, &evals, &nontrivial, &transitions, states)
 	rep.Add(evals, nontrivial, int64(len(states)), transitions)
 	if err := rep.Finish(env); err != nil {
 		t.Fatal(err)
